@@ -165,10 +165,10 @@ class SimTerminal:
         return self.al_state | (0x10 if self.al_error else 0)
 
     def _al_poll(self):
-        code = self.al_spontaneous_error()
+        code = self.al_spontaneous_error()      # < 0: error flag with status code 0
         if code and not self.al_error:
             self.al_error = True
-            self.al_code = code
+            self.al_code = max(code, 0)
             self.al_target = None
             self.world.count("fault/al-spontaneous-error")
         if self.al_target is not None:
@@ -183,7 +183,7 @@ class SimTerminal:
         code = self.al_fail(frm, to)
         if code:
             self.al_error = True
-            self.al_code = code
+            self.al_code = max(code, 0)
             self.world.count("fault/al-transition-error")
             return
         self.al_state = to
